@@ -87,11 +87,13 @@ CHECKS = {
          "any token list; harness: undeclared exception classes, printing, per-case time bound, token-level fuzzing of "
          "/repo against the parser model; termination of the constrained engine is observed, not proved",
          "4 C17", "Coq proof (invariant by induction on fuel; parser totality) + correspondence + exception-class oracle + fuzzing"),
- "C18": ("schedules proved to only permute the pending constraints; independence of the outcome is refuted for the "
-         "error kind (C18_refuted, known finding) and otherwise searched exhaustively per case (all permutations at "
-         "every re-check point, imposed on /repo through the guarded hook) with model/implementation agreement per "
-         "schedule - the search is testing, the proved part is partial",
-         "4 C18", "Coq proof (partial) + refutation witness + exhaustive schedule search via hook"),
+ "C18": ("schedules proved to only permute the pending constraints (C18_permute); the property itself is REFUTED on "
+         "the faithful model and on the code for the error kind (C18_refuted) and for the result when elimination "
+         "constraints interact (C18_refuted_result) - two known findings, a third instance (match on bounded "
+         "variables) was repaired; for every generated program all permutations at every re-check point are imposed on "
+         "/repo through the guarded hook and on the model, which must agree per schedule on the full store; divergences "
+         "outside the two recorded classes are violations",
+         "4 C18", "Coq refutation witnesses + permutation lemma (partial) + exhaustive schedule search via hook + per-schedule correspondence"),
 }
 
 NOT_YET = {}
